@@ -45,7 +45,7 @@ func genC24MergeCase(c *rig.Ctx, i int) *c24MergeCase {
 		a, b = b, a
 	}
 	k := 1 + r.Intn(4)
-	switch r.Intn(7) {
+	switch r.Intn(7); i % 7 { // the directed shape rotates with the case number: every kind occurs in every 7 cases
 	case 0: // CHECK over two columns, one column per side
 		*a = append(*a, fmt.Sprintf("update child set a = 60 where id = %d", k))
 		*b = append(*b, fmt.Sprintf("update child set b = 60 where id = %d", k))
@@ -89,10 +89,13 @@ func c24merge(c *rig.Ctx) {
 		"server on its own branch), optionally NOT NULL added on one side while the other inserts NULLs; dolt_merge in both directions inside a transaction, " +
 		"COMMIT without and with @@dolt_force_transaction_commit, dolt_commit --force, dolt_cherry_pick of the right commit. After every acknowledged " +
 		"operation the state is evaluated independently: kept violating rows must be listed, unforced commits must leave a clean committed state. " +
-		"A case is distinct/non-trivial when the merge kept at least one violating row, by the set of (kind:constraint) violated")
+		"Second schema family (late constraints): tables fork without constraints, one side adds FK to a non-PK indexed parent column / UNIQUE / CHECK / NOT NULL after the fork, " +
+		"the other side changes rows against them (parent column updated in place, parent deleted, orphans, duplicates, check-violating values, NULLs), keyed and keyless parents, both directions, " +
+		"forced / unforced commit, and the same pair as two concurrent transactions merged at COMMIT. " +
+		"A case is distinct/non-trivial when the merge kept or recorded at least one violating row, by the set of (kind:constraint) violated resp. (family, direction, shapes)")
 	srv, stop := startServer(c, "c24m")
 	defer stop()
-	n := c.Pick(32, 400)
+	n := c.Pick(28, 400)
 	stats := &c24MergeStats{m: map[string]int{}}
 	const par = 6
 	var wg sync.WaitGroup
@@ -102,18 +105,31 @@ func c24merge(c *rig.Ctx) {
 		go func() {
 			defer wg.Done()
 			for i := range next {
+				if i < 0 { // late-constraint family
+					runLateCase(c, srv, genLateCase(c, -i-1), stats)
+					continue
+				}
 				mc := genC24MergeCase(c, i)
 				runC24MergeCase(c, srv, mc, stats)
 			}
 		}()
 	}
-	for i := 0; i < n && distinctViolationKeys() <= 8; i++ {
+	for i := 0; i < n && distinctViolationKeys() <= 25; i++ {
 		mc := genC24MergeCase(c, i)
 		c.Case(fmt.Sprintf("c24/merges/%d", i), map[string]any{"db": mc.DB, "left": mc.Left, "right": mc.Right})
 		if i < 2 {
 			c.Sample(map[string]any{"db": mc.DB, "base": c24Base(), "left": mc.Left, "right": mc.Right})
 		}
 		next <- i
+	}
+	nl := c.Pick(24, 400)
+	for i := 0; i < nl && distinctViolationKeys() <= 25; i++ {
+		lc := genLateCase(c, i)
+		c.Case(fmt.Sprintf("c24/late/%d", i), map[string]any{"db": lc.DB, "keyless_parent": lc.Keyless, "schema_side": lc.Schema, "data_side": lc.Data, "shapes": lc.Shapes})
+		if i < 2 {
+			c.Sample(map[string]any{"db": lc.DB, "keyless_parent": lc.Keyless, "base": lateBase(lc.Keyless), "schema_side": lc.Schema, "data_side": lc.Data})
+		}
+		next <- -i - 1
 	}
 	close(next)
 	wg.Wait()
@@ -128,6 +144,9 @@ func c24merge(c *rig.Ctx) {
 	c.Require(m["listed:not-null"] > 0, "merges did not produce a NOT NULL violation")
 	c.Require(m["unforced_commit_rejected"] > 0 && m["forced_commits"] > 0, "unforced rejection / forced commit not exercised")
 	c.Require(m["cherry_picks_acknowledged"] > 0, "no cherry-pick was acknowledged")
+	c.Require(m["late.shape:fk_parent_updated_in_place"] > 0 && m["late.listed:foreign-key"] > 0, "late-constraint family: no FK added after the fork met an in-place update of the referenced parent column")
+	c.Require(m["late.cases_keyless_parent"] > 0 && m["late.cases_keyed_parent"] > 0 && m["late.merges_acknowledged"] > 0, "late-constraint family: keyed / keyless parents or acknowledged merges missing")
+	c.Require(m["late.listed:unique-index"]+m["late.listed:check-constraint"]+m["late.listed:not-null"] > 0, "late-constraint family: no UNIQUE / CHECK / NOT NULL violation recorded")
 	countReported(c, "c24")
 	scanOwnRaceReports(c, "C24", c24RaceFuncs)
 }
